@@ -1,6 +1,6 @@
 (* C18 - Schwab conversion keeps every relevant row and emits valid DSL.  Statements only. *)
 From Coq Require Import ZArith NArith List Bool Ascii String Permutation.
-Require Import CGT.Model.Date CGT.Model.Dsl CGT.Model.Schwab CGT.Proofs.DslFacts CGT.Proofs.SchwabFacts.
+Require Import CGT.Model.Date CGT.Model.Dsl CGT.Model.Schwab CGT.Proofs.DslFacts CGT.Proofs.SchwabFacts CGT.Proofs.SchwabConserve.
 Import ListNotations.
 
 (* Whatever the free-text fields contain (quotes, '#', CR, LF, tabs ...), a comment line emitted by the
@@ -20,6 +20,42 @@ Theorem C18_cancel_unmatched : forall c l, remove_first (is_cancelled c) l = Non
   forallb (fun x => negb (is_cancelled c x)) l = true.
 Proof. intros c l. apply remove_first_none. Qed.
 
+(* Conservation through the whole converter, for exports of any length.  `demanded` lists what the property asks for each decoded
+   row: one BUY for a Buy row, one SELL for a Sell row (same date, symbol, quantity, price, fees), one BUY at the vest date and
+   vest-date value for an RSU row, nothing for any other row.  Whenever the converter accepts an export, the trades among its
+   output lines are - up to order - exactly those, less the sells in `removed`; every removed sell is identical to some Cancel Sell
+   row, and there are at most as many of them as Cancel Sell rows (one removal per cancel, `apply_cancels_spec`).  Nothing else is
+   dropped and nothing is added. *)
+Theorem C18_trades_conserved : forall lb rows aws o, convert lb rows aws = Ok o ->
+  exists awards items sorted header removed,
+    decode_all rows = Ok items /\
+    o_lines o = header ++ flat_map cgt_lines sorted /\
+    Permutation (flat_map (demanded lb awards) items) (removed ++ filter is_trade sorted) /\
+    (List.length removed <= List.length (flat_map cancels_of items))%nat /\
+    Forall (fun x => exists c, In c (flat_map cancels_of items) /\ is_cancelled c x = true) removed.
+Proof. exact convert_conserves. Qed.
+
+(* each cancellation removes one sell or is counted once as unmatched: removed + unmatched = cancels *)
+Theorem C18_cancels_accounted : forall cs out w out' w', apply_cancels out cs w = (out', w') ->
+  exists removed, Permutation out (removed ++ out') /\ (w <= w')%nat /\ (List.length removed + (w' - w) = List.length cs)%nat /\
+                  Forall (fun x => exists c, In c cs /\ is_cancelled c x = true) removed.
+Proof. exact apply_cancels_spec. Qed.
+
+(* non-vacuity: two identical sells, one cancel, a purchase and an irrelevant row - accepted; one sell and the purchase remain *)
+Definition c18_row (a d s q p f : string) : row :=
+  {| r_action := Some (T a); r_date := Some (T d); r_symbol := Some (T s); r_desc := Some (T "x # y");
+     r_qty := Some (T q); r_price := Some (T p); r_fees := Some (T f); r_amount := None |}.
+Definition c18_rows : list row :=
+  [ c18_row "Sell" "03/05/2024" "ACME" "10" "$12.50" "$0.10"; c18_row "Cancel Sell" "03/05/2024" "ACME" "10" "$12.50" "";
+    c18_row "Buy" "01/02/2024" "ACME" "100" "$10.00" "$1.00"; c18_row "Sell" "03/05/2024" "ACME" "10" "$12.50" "$0.10";
+    c18_row "Wire Sent" "03/06/2024" "" "" "" "" ].
+Example C18_conservation_applies : exists o, convert 7 c18_rows None = Ok o /\
+  map string_of_list_ascii (skipn 4 (o_lines o)) =
+    ["2024-01-02 BUY ACME 100 @ 10.00 USD FEES 1.00 USD"%string; "2024-03-05 SELL ACME 10 @ 12.50 USD FEES 0.10 USD"%string] /\ o_skipped o = 1%nat.
+Proof. eexists. split; [vm_compute; reflexivity|]. split; reflexivity. Qed.
+
+Print Assumptions C18_trades_conserved.
+Print Assumptions C18_cancels_accounted.
 Print Assumptions C18_comment_cannot_escape.
 Print Assumptions C18_sort_conserves.
 Print Assumptions C18_cancel_removes_one.
